@@ -27,7 +27,7 @@ def _scratch_root():
 
 
 def _run_one(prop, src, entry, kind):
-    edits = entry.get("edits") or [(entry["file"], entry["old"], entry["new"])]
+    edits = [] if entry.get("patch") else (entry.get("edits") or [(entry["file"], entry["old"], entry["new"])])
     for f, old, new in edits:
         p = os.path.join(src, "autobahn", f)
         if not os.path.exists(p) or open(p).read().count(old) < 1:
@@ -36,6 +36,10 @@ def _run_one(prop, src, entry, kind):
     try:
         shutil.copytree(os.path.join(src, "autobahn"), os.path.join(d, "src", "autobahn"),
                         ignore=shutil.ignore_patterns("__pycache__", "*.so", "*.pyc", "*.o"))
+        if entry.get("patch"):
+            r = subprocess.run(["patch", "-p1", "-s", "-f", "-d", d, "-i", entry["patch"]], capture_output=True, text=True)
+            if r.returncode != 0:
+                return {"name": entry["name"], "kind": kind, "status": "skipped", "why": "seeded patch does not apply to the current tree"}
         for f, old, new in edits:
             p = os.path.join(d, "src", "autobahn", f)
             s = open(p).read().replace(old, new, 1)
@@ -65,8 +69,17 @@ def run(prop, src, jobs=16):
     try:
         mod = importlib.import_module(f"sa.selftest.{prop.lower()}")
     except ImportError:
-        return None
+        mod = None
     work = [(e, "mutant") for e in getattr(mod, "MUTANTS", [])] + [(e, "clean") for e in getattr(mod, "CLEAN", [])]
+    # regressions seeded by independent sub-agents (confirmed property-breaking, tests still pass): /verif/seeded/<ID>-<k>/patch.diff
+    sd = os.path.join(VERIF, "seeded")
+    if os.path.isdir(sd):
+        for d in sorted(os.listdir(sd)):
+            pf = os.path.join(sd, d, "patch.diff")
+            if d.split("-")[0] == prop and os.path.exists(pf):
+                work.append(({"name": f"seeded regression {d}", "patch": pf, "expect": prop + "."}, "mutant"))
+    if not work:
+        return None
     with ThreadPoolExecutor(jobs) as ex:
         res = list(ex.map(lambda w: _run_one(prop, src, w[0], w[1]), work))
     # replay files written by scratch runs of the children
